@@ -27,7 +27,7 @@ if [ ! -f "$demo" ]; then echo "$name: no demo_test.go"; exit 1; fi
 pkgdir=.
 grep -q "^package main" "$demo" && pkgdir=cmd/desync
 tags=""
-grep -q "go:build verif" "$demo" && tags="-tags verif"
+grep -q "go:build verif" "$demo" && tags="-tags verif"; grep -q "go:build datadog" "$demo" && tags="-tags datadog"
 tests=$(grep -oE "^func (Test[A-Za-z0-9_]+)" "$demo" | awk '{print $2}' | paste -sd'|')
 cp "$demo" "$pkgdir/zz_demo_test.go"
 go test $tags -vet=off -count=1 -timeout 300s -run "^($tests)\$" ./$pkgdir > "$wt.demo_with.txt" 2>&1; with=$?
